@@ -8,7 +8,7 @@ from dataclasses import dataclass, field, replace
 
 from packaging.markers import default_environment
 from packaging.specifiers import InvalidSpecifier, Specifier
-from packaging.version import InvalidVersion
+from packaging.version import InvalidVersion, Version
 
 from dep_logic.markers.any import AnyMarker
 from dep_logic.markers.base import BaseMarker, EvaluationContext
@@ -205,6 +205,9 @@ class MarkerExpression(SingleMarker):
                 pass
             else:
                 try:
+                    # Specifier.contains() of recent packaging releases answers False
+                    # for a string that is not a version instead of raising
+                    Version(lhs)
                     return spec.contains(lhs)
                 except InvalidVersion:
                     pass
